@@ -21,6 +21,14 @@ for line in out.splitlines():
         print("SKIP (other property's file):", f); continue
     if "D" in st:
         print("deleted in copy (not applied):", f); continue
+    if f.startswith("seeded/") or f in ("KNOWN_FINDINGS.txt", "DESIGN.md", "MANIFEST.json", "properties.jsonl", "CONVENTIONS.md"):
+        print("SKIP (shared file):", f); continue
+    dst = os.path.join(here, f)
+    if os.path.exists(dst) and "?" not in st:
+        # a file the copy MODIFIED: take it only if /verif still has what the copy started from (else /verif moved on meanwhile)
+        base = subprocess.run(["git", "-C", src, "show", "HEAD:" + f], capture_output=True).stdout
+        if base != open(dst, "rb").read() and open(dst, "rb").read() != open(os.path.join(src, f), "rb").read():
+            print("CONFLICT (/verif changed this file since the copy was taken; not copied):", f); continue
     os.makedirs(os.path.dirname(os.path.join(here, f)) or here, exist_ok=True)
     shutil.copy2(os.path.join(src, f), os.path.join(here, f))
     print("copied", f)
